@@ -403,9 +403,105 @@ def rule_resolve(repo: Repo) -> List[Ob]:
                                       f"`{src(x)[:60]}`: `{v}` is a {ci.name} and no class of its hierarchy defines `{x.func.attr}`: AttributeError as soon as this statement runs"))
                     elif has is True:
                         obs.append(Ob("E-resolve", key, f.relpath, x.lineno, f.qualname, True, f"{ci.name}.{x.func.attr} is defined", trivial=True))
+        # parameters annotated with a class of the repository: an attribute that neither the class, nor a base, nor any subclass offers
+    for f in repo.functions:
+        if f.relpath.startswith(SCOPE_EXCLUDE):
+            continue
+        ann = {}
+        for a in f.node.args.args + f.node.args.kwonlyargs:
+            if a.annotation is None:
+                continue
+            d = a.annotation.value if isinstance(a.annotation, ast.Constant) and isinstance(a.annotation.value, str) else dotted(a.annotation)
+            if isinstance(d, str) and d:
+                ci = repo.resolve_class(f.module, d.strip("'\"")) or repo.find_cls(d.strip("'\"").split(".")[-1])
+                if ci is not None:
+                    ann[a.arg] = ci
+        if not ann:
+            continue
+        stored = {x.id for x in walk_no_nested(f.node) if isinstance(x, ast.Name) and isinstance(x.ctx, (ast.Store, ast.Del))}
+        for x in walk_no_nested(f.node):
+            if isinstance(x, ast.Attribute) and isinstance(x.ctx, ast.Load) and isinstance(x.value, ast.Name) and x.value.id in ann and x.value.id not in stored:
+                ci = ann[x.value.id]
+                n += 1
+                has = _class_offers(ci, x.attr)
+                if has is False and not any(_class_offers(c, x.attr) is not False for c in repo.subclasses(ci)):
+                    obs.append(Ob("E-resolve", f"{f.relpath}::{f.qualname}::{ci.name}.{x.attr}", f.relpath, x.lineno, f.qualname, False,
+                                  f"`{src(x)[:50]}`: the parameter is annotated `{ci.name}` and neither that class, its bases nor any subclass defines `{x.attr}`"))
+                elif has is True:
+                    obs.append(Ob("E-resolve", f"{f.relpath}::{f.qualname}::{ci.name}.{x.attr}", f.relpath, x.lineno, f.qualname, True, f"{ci.name}.{x.attr} is defined", trivial=True))
     if n < 10:
         raise AnalysisError(f"only {n} method calls on freshly constructed repository objects found")
     return obs
+
+
+def rule_arity(repo: Repo) -> List[Ob]:
+    """calls that resolve to exactly one function of the repository (a method of the own class that no subclass overrides, a module
+    function, a constructor) pass arguments its signature accepts.  Code behind non-default options is not reached by the tests; a
+    call and a signature that have drifted apart end in a TypeError there."""
+    obs = []
+    n = 0
+    for f in repo.functions:
+        if f.relpath.startswith(SCOPE_EXCLUDE):
+            continue
+        for c in walk_no_nested(f.node):
+            if not isinstance(c, ast.Call):
+                continue
+            h, meth = None, False
+            if isinstance(c.func, ast.Attribute) and isinstance(c.func.value, ast.Name) and c.func.value.id in ("self", "cls") and f.cls is not None:
+                cands = [m for k in f.cls.mro() for m in k.all_methods if m.name == c.func.attr]
+                subs = [m for k in repo.subclasses(f.cls) for m in k.all_methods if m.name == c.func.attr]
+                if len(cands) == 1 and not subs:
+                    h, meth = cands[0], True
+            elif isinstance(c.func, ast.Name):
+                r = repo.resolve_name(f.module, c.func.id)
+                if r and r[0] == "func":
+                    h = r[1]
+                elif r and r[0] == "class" and r[1] is not None:
+                    init = r[1].find_method("__init__")
+                    if init is not None and r[1].find_method("__new__") is None:
+                        h, meth = init, True
+            if h is None or any(isinstance(a, ast.Starred) for a in c.args) or any(k.arg is None for k in c.keywords):
+                continue
+            decos = [src(d) for d in h.node.decorator_list]
+            if any(("register" in d) or ("singledispatch" in d) or d == "property" or d.endswith(".setter") for d in decos):
+                continue
+            a = h.node.args
+            params = [x.arg for x in a.posonlyargs + a.args]
+            if h.cls is not None and "staticmethod" not in decos and meth:
+                params = params[1:]
+            nd = len(a.defaults)
+            required = params[:len(params) - nd] if nd else params
+            kwonly = [k.arg for k in a.kwonlyargs]
+            kwreq = [k.arg for k, d in zip(a.kwonlyargs, a.kw_defaults) if d is None]
+            npos, kws = len(c.args), [k.arg for k in c.keywords]
+            prob = None
+            if npos > len(params) and a.vararg is None:
+                prob = f"{npos} positional arguments for {len(params)} parameters"
+            for k in kws:
+                if k not in params and k not in kwonly and a.kwarg is None:
+                    prob = f"unknown keyword `{k}`"
+                if k in params[:npos]:
+                    prob = f"`{k}` is given twice"
+            missing = [p_ for p_ in required[npos:] if p_ not in kws] + [k for k in kwreq if k not in kws]
+            if missing:
+                prob = f"missing {missing}"
+            n += 1
+            key = f"{f.relpath}::{f.qualname}::call::{h.qualname}"
+            if prob:
+                obs.append(Ob("E-arity", key, f.relpath, c.lineno, f.qualname, False, f"`{src(c)[:60]}` does not fit `{h.qualname}({', '.join(params)})`: {prob} -- a TypeError as soon as the statement runs"))
+            else:
+                obs.append(Ob("E-arity", key, f.relpath, c.lineno, f.qualname, True, "arguments fit the signature", trivial=True))
+    if n < 100:
+        raise AnalysisError(f"only {n} resolved calls")
+    return obs
+
+
+def mut_arity(repo: Repo) -> List[Mutant]:
+    out = []
+    ov = text_mutant(repo, "recurrences/solver/cyclic_solver.py", "self._add_beginning_values(solution, self.monom_to_index[monomial])", "self._add_beginning_values(solution)")
+    if ov:
+        out.append(Mutant("argument-dropped-at-a-call", ov, "fire", "call::CyclicSolver._add_beginning_values", control=True))
+    return out
 
 
 def mut_resolve(repo: Repo) -> List[Mutant]:
@@ -414,6 +510,7 @@ def mut_resolve(repo: Repo) -> List[Mutant]:
 
 
 RULES = {
+    "ARITY": Rule("E-arity", rule_arity, 100, "calls that resolve to one function of the repository pass arguments its signature accepts", mut_arity, soft=True),
     "RESOLVE": Rule("E-resolve", rule_resolve, 10, "a method called on a freshly constructed object of a repository class is defined in that class's hierarchy", mut_resolve, soft=True),
     "EXCEPT": Rule("E-except", rule_except_discipline, 3, "every exception handler re-raises on all its paths, or is a reviewed complete fallback", mut_except_discipline),
     "QUANT": Rule("E-quantifier", rule_quantifiers, 8, "reviewed safety-relevant any()/all() guards keep their quantifier (negations folded: De Morgan spellings are equal)", mut_quantifiers),
